@@ -877,6 +877,10 @@ def check(prop: str, tier: str) -> int:
     wall = time.monotonic() - t0
     stats = br.stats
     extra = eng.evidence_extra(stats, tier)
+    enum_fps = x_cov.pop("enumerated_fingerprints", None)
+    if enum_fps is not None:
+        # distinct non-trivial cases of the enumerated phase that the sampled phase did not also produce
+        x_cov["enumerated_distinct"] = len(set(enum_fps) - br.nontrivial)
     extra.update(x_cov)
     cov: dict[str, Any] = {
         "evaluations": br.runs + int(x_stats.get("enumerated_inputs", 0)),
